@@ -61,6 +61,8 @@ def show(t):
         return "[%d]%s" % (t["len"], show(t["e"]))
     if k == "named":
         return "N(%s)" % show(t["u"])
+    if k == "alias":
+        return "A(%s)" % show(t["u"])
     if k == "struct":
         return "struct{%s}" % "; ".join(show(f) for f in t["fields"])
     raise ValueError(k)
@@ -71,7 +73,7 @@ def children(t):
     k = t["k"]
     if k == "array":
         return [t["e"]]
-    if k == "named":
+    if k in ("named", "alias"):
         return [t["u"]]
     if k == "struct":
         return list(t["fields"])
@@ -87,14 +89,15 @@ def subterms(t):
 
 
 def has_func(t):
-    return any(s["k"] == "func" for s in subterms(t) if True) and _has_func_layout(t)
+    """a function value is part of t's own memory (not merely referred to)"""
+    return _has_func_layout(t)
 
 
 def _has_func_layout(t):
     k = t["k"]
     if k == "func":
         return True
-    if k in ("array", "named", "struct"):
+    if k in ("array", "named", "alias", "struct"):
         return any(_has_func_layout(c) for c in children(t))
     return False
 
@@ -111,25 +114,18 @@ def root_class(t):
     k = t["k"]
     if k == "basic":
         return t["n"]
-    if k in ("ptr", "slice", "chan", "func", "iface"):
-        return k
-    feats = set()
-    for s in subterms(t):
-        if s["k"] == "func":
-            feats.add("func")
-        if s["k"] == "basic" and s["n"] in ("int64", "uint64", "float64", "complex128"):
-            feats.add("wide8")
+    if k == "array":
+        return "array.len0" if t["len"] == 0 else "array"
     if k == "struct":
         fs = t["fields"]
         if not fs:
             return "struct.empty"
         if zero_size(fs[-1]) and not all(zero_size(f) for f in fs):
-            feats.add("zerotail")
-        if all(zero_size(f) for f in fs):
-            feats.add("allzero")
-    if k == "array" and t["len"] == 0:
-        feats.add("len0")
-    return k + ("." + ".".join(sorted(feats)) if feats else "")
+            return "struct.zerotail"
+        if any(f["k"] in ("struct", "array", "named", "alias") for f in fs):
+            return "struct.nested"
+        return "struct.flat"
+    return k
 
 
 def zero_size(t):
@@ -138,7 +134,7 @@ def zero_size(t):
         return all(zero_size(f) for f in t["fields"])
     if k == "array":
         return t["len"] == 0 or zero_size(t["e"])
-    if k == "named":
+    if k in ("named", "alias"):
         return zero_size(t["u"])
     return False
 
@@ -304,7 +300,7 @@ def cdecl(t, name):
         return "void *%s" % name
     if k == "array":
         return cdecl(t["e"], "%s[%d]" % (name, t["len"]))
-    if k == "named":
+    if k in ("named", "alias"):
         return cdecl(t["u"], name)
     if k == "struct":
         return "struct { %s; } %s" % ("; ".join(cdecl(f, "f%d" % i) for i, f in enumerate(t["fields"])), name)
@@ -312,7 +308,7 @@ def cdecl(t, name):
 
 
 def under(t):
-    while t["k"] == "named":
+    while t["k"] in ("named", "alias"):
         t = t["u"]
     return t
 
@@ -390,6 +386,11 @@ class GoRender:
             self.decls.append(None)
             self.decls[int(name[1:])] = "type %s %s" % (name, self.typ(t["u"]))
             return name
+        if k == "alias":
+            name = "N%d" % len(self.decls)
+            self.decls.append(None)
+            self.decls[int(name[1:])] = "type %s = %s" % (name, self.typ(t["u"]))
+            return name
         raise ValueError(k)
 
 
@@ -405,19 +406,18 @@ def e2e_program(recs, idxs):
         b = "".join(", addr(unsafe.Pointer(&v[0].F%d))-addr(unsafe.Pointer(&v[0]))" % j for j in range(nf))
         c = "".join(", rt.Field(%d).Offset" % j for j in range(nf))
         funcs.append("""func t%d() {
-	type T = %s
-	var v [2]T
+	var v [2]%s
 	var w struct {
 		b byte
-		x T
+		x %s
 	}
-	rt := reflect.TypeOf(v[0])
+	rt := reflect.TypeOf(&v[0]).Elem()
 	println(%d, "a", unsafe.Sizeof(v[0]), unsafe.Alignof(v[0])%s)
 	println(%d, "b", addr(unsafe.Pointer(&v[1]))-addr(unsafe.Pointer(&v[0])), addr(unsafe.Pointer(&w.x))-addr(unsafe.Pointer(&w))%s)
 	println(%d, "g", gsize(v[0]), galign(v[0]))
 	println(%d, "c", rt.Size(), rt.Align(), rt.FieldAlign()%s)
 }
-""" % (i, ty, i, a, i, b, i, i, c))
+""" % (i, ty, ty, i, a, i, b, i, i, c))
     src = ("package main\n\nimport (\n\t\"reflect\"\n\t\"unsafe\"\n)\n\n"
            "//go:noinline\nfunc addr(p unsafe.Pointer) uintptr { return uintptr(p) }\n\n"
            "func gsize[X any](x X) uintptr  { return unsafe.Sizeof(x) }\nfunc galign[X any](x X) uintptr { return unsafe.Alignof(x) }\n\n"
@@ -469,8 +469,205 @@ def judge_e2e(rec, o):
 
 
 
+def load_terms(res):
+    recs, index = [], {}
+    for d in C.tlc_printed_iter(res):
+        k = tkey(d["t"])
+        if k in index:
+            continue
+        index[k] = 1
+        recs.append(d)
+    recs.sort(key=lambda d: tkey(d["t"]))          # TLC's print order varies with its workers
+    index = {tkey(d["t"]): i for i, d in enumerate(recs)}
+    return recs, index
+
+
+def closure(recs, index, idxs):
+    """idxs plus all their components (so that minimality of a reported case can be decided)"""
+    out, todo = set(), list(idxs)
+    while todo:
+        i = todo.pop()
+        if i in out:
+            continue
+        out.add(i)
+        for c in children(recs[i]["t"]):
+            j = index.get(tkey(c))
+            if j is not None and j not in out:
+                todo.append(j)
+    return sorted(out)
+
+
+REF_PROFILE = {"amd64": 0, "arm64": 0, "386": 2, "arm": 2}      # what the reference toolchain (gc) does on the arch
+
+
 def check(chk):
-    raise C.Undecided("driver under construction")
+    from concurrent.futures import ThreadPoolExecutor
+    thorough = chk.tier == "thorough"
+    rd = chk.rd.path
+    rng = random.Random(C.seed())
+    files = {"zz_verif_c08_test.go": open(os.path.join(HARNESS, "zz_verif_c08_test.go")).read(),
+             "zz_verif_c08_sizes_test.go": sizes_file()}
+    pool = ThreadPoolExecutor(max_workers=4)
+    f_bin = pool.submit(C.gotest_compile_injected, "ssa", files, rd, "", True, 1500)
+    f_llgo = pool.submit(C.llgo_binary)
+    cfg = "layout_thorough.cfg" if thorough else "layout_quick.cfg"
+    res = C.tlc(SPEC, "Layout", cfg, rd, timeout=2400, parse_json=False, tlc_seed=C.seed())
+    if not res.ok:
+        raise C.Undecided("Layout.tla: a law of the layout itself failed in TLC (spec defect): %s" % res.violation)
+    chk.add_tlc(res, "Layout/" + chk.tier)
+    recs, index = load_terms(res)
+    if len(recs) < 5000:
+        raise C.Undecided("Layout.tla emitted only %d terms" % len(recs))
+    C.log("TLC: %d terms in %.0fs" % (len(recs), res.wall))
+
+    # ---------------- in process: every term x every target
+    cases = os.path.join(rd, "cases.ndjson")
+    with open(cases, "w") as f:
+        for i, d in enumerate(recs):
+            f.write(json.dumps({"i": i, "t": d["t"]}) + "\n")
+    testbin = f_bin.result()
+    t0 = time.time()
+    # the end-to-end program is built while the in-process harness runs
+    n_e2e = 1500 if thorough else 60
+    leaves = [i for i, d in enumerate(recs) if d["ph"] == 1]
+    pick = set(leaves) | set(rng.sample(range(len(recs)), min(n_e2e, len(recs))))
+    e2e_idx = closure(recs, index, pick)
+    f_llgo.result()
+    batches = [e2e_idx[k:k + 400] for k in range(0, len(e2e_idx), 400)]
+    f_e2e = [pool.submit(run_e2e_batch, chk, recs, b, "b%d" % bi) for bi, b in enumerate(batches)]
+    results = run_targets(chk, testbin, cases, TARGETS)
+    C.log("in-process harness: %d terms x %d targets in %.0fs" % (len(recs), len(TARGETS), time.time() - t0))
+
+    # negative controls: the judge must reject a wrong expectation and a corrupted observation
+    ki = index.get(tkey({"k": "struct", "fields": [{"k": "basic", "n": "int8"}, {"k": "basic", "n": "int64"}]}))
+    if ki is None:
+        raise C.Undecided("negative control term not enumerated")
+    wrong = json.loads(json.dumps(recs[ki]))
+    wrong["L"][0][0] += 1
+    o64 = results[HOST][1][ki]
+    if judge(HOST, recs[ki], o64) or not any(t.startswith("spec(") for t, _ in judge(HOST, wrong, o64)):
+        raise C.Undecided("negative control: a wrong expected size for struct{int8; int64} was not flagged (or the right one was)")
+    oarm = json.loads(json.dumps(results["arm64"][1][ki]))
+    oarm["b"]["o"][-1] += 1
+    if not any(t.startswith("offsets(") for t, _ in judge("arm64", recs[ki], oarm)):
+        raise C.Undecided("negative control: a corrupted field offset was not flagged as a disagreement")
+
+    # self-validation of the profiles against the reference toolchain's own sizes (func-free terms)
+    nref = 0
+    for arch, pi in REF_PROFILE.items():
+        for i, o in results[arch][1].items():
+            if o.get("ref") and not o.get("err"):
+                nref += 1
+                if lay(o["ref"]) != lay(recs[i]["L"][pi]):
+                    raise C.Undecided("Layout.tla (%s) disagrees with go/types gc sizes on %s for %s: spec %s, go/types %s" % (
+                        PROFILES[pi], arch, show(recs[i]["t"]), lay(recs[i]["L"][pi]), lay(o["ref"])))
+    # ... and against the host C compiler for the C-compatible terms
+    cc = [i for i, d in enumerate(recs) if d["cc"]]
+    gcc = run_gcc(chk, recs, cc)
+    for i in cc:
+        want = lay(recs[i]["L"][0])
+        if gcc.get(i) != want:
+            raise C.Undecided("Layout.tla (amd64) disagrees with gcc for %s: spec %s, gcc %s" % (show(recs[i]["t"]), want, gcc.get(i)))
+
+    # the verdicts
+    nobs, nerr = 0, 0
+    fits = {}
+    for goos, arch in TARGETS:
+        info, obs = results[arch]
+        nobs += len(obs)
+        errs = [o for o in obs.values() if o.get("err")]
+        nerr += len(errs)
+        if len(errs) > len(obs) // 20:
+            raise C.Undecided("the harness could not observe %d of %d terms on %s, e.g. %s" % (len(errs), len(obs), arch, errs[0]))
+        roots, explained, nbad = find_roots(arch, recs, obs, index)
+        fits[arch] = fit_profiles(recs, obs)
+        fits[arch]["sizes"] = info["base"] + " -> " + info["sizes"]
+        fits[arch]["disagreeing_terms"] = nbad
+        fits[arch]["minimal"] = len(roots)
+        groups = {}
+        for i, probs in roots:
+            tags = "+".join(sorted(set(t for t, _ in probs if t != "error")) or ["error"])
+            key = "layout:%s:%s:%s" % (arch, root_class(recs[i]["t"]), tags)
+            groups.setdefault(key, []).append((i, probs))
+        for key, items in sorted(groups.items()):
+            i, probs = items[0]
+            chk.reject(key, "%s: %d minimal term(s), e.g. %s: %s (%d terms built from such components not listed)" % (
+                arch, len(items), show(recs[i]["t"]), "; ".join(d for _, d in probs), explained),
+                {"target": info, "examples": [{"term": recs[j]["t"], "go": show(recs[j]["t"]), "observed": obs[j],
+                                               "spec_profiles": dict(zip(PROFILES, recs[j]["L"])), "problems": pr} for j, pr in items[:8]]})
+        # second sentence: C-compatible terms equal the host C compiler's layout
+        if arch == HOST:
+            for i in cc:
+                o = obs[i]
+                if o.get("err"):
+                    continue
+                for nm in "abc":
+                    if lay(o[nm]) != gcc[i] and not judge(arch, recs[i], o):
+                        chk.reject("layout:%s:%s:cabi(%s)" % (arch, root_class(recs[i]["t"]), nm),
+                                   "%s: llgo %s, gcc %s" % (show(recs[i]["t"]), lay(o[nm]), gcc[i]), {"term": recs[i]["t"], "observed": o, "gcc": gcc[i]})
+
+    # ---------------- end to end on the host
+    e2e_obs = {}
+    for f in f_e2e:
+        e2e_obs.update(f.result())
+    bad = {i: p for i, p in ((i, judge_e2e(recs[i], e2e_obs[i])) for i in e2e_idx) if p}
+    groups = {}
+    e2e_explained = 0
+    for i, probs in bad.items():
+        kids = [index.get(tkey(c)) for c in children(recs[i]["t"])]
+        if any(k in bad for k in kids if k is not None):
+            e2e_explained += 1
+            continue
+        key = "e2e:%s:%s:%s" % (HOST, root_class(recs[i]["t"]), "+".join(sorted(set(t for t, _ in probs))))
+        groups.setdefault(key, []).append((i, probs))
+    for key, items in sorted(groups.items()):
+        i, probs = items[0]
+        chk.reject(key, "llgo-compiled program: %d minimal term(s), e.g. %s: %s" % (len(items), show(recs[i]["t"]), "; ".join(d for _, d in probs)),
+                   {"examples": [{"term": recs[j]["t"], "go": show(recs[j]["t"]), "printed": e2e_obs[j], "spec_amd64": recs[j]["L"][0],
+                                  "problems": pr} for j, pr in items[:8]], "program": e2e_program(recs, closure(recs, index, [i]))})
+    # the in-process observations are what the compiled program shows (binding of the harness to the real build)
+    drift = []
+    for i in e2e_idx:
+        o, e = results[HOST][1][i], e2e_obs[i]
+        if o.get("err"):
+            continue
+        for nm in "abc":
+            if nm == "c" and under(recs[i]["t"])["k"] == "func":
+                continue        # reflect presents a closure as its code pointer's func type; judged on its own below
+            x, y = lay(o[nm]), lay(e[nm])
+            if (x[0], x[1], x[2]) != (y[0], y[1], y[2]):
+                drift.append("%s %s: in-process %s, compiled program %s" % (show(recs[i]["t"]), nm, x[:3], y[:3]))
+    if drift:
+        raise C.Undecided("%d in-process observations differ from what the llgo-compiled program prints (the harness does not "
+                          "follow the real build), e.g. %s" % (len(drift), "; ".join(drift[:4])))
+
+    ncomposite = sum(1 for d in recs if d["t"]["k"] in ("struct", "array", "map", "named", "alias"))
+    chk.cov["evaluations"] = nobs + len(e2e_idx) + len(cc)
+    chk.cov["distinct_nontrivial"] = ncomposite
+    chk.cov["traces_validated_against_impl"] = nobs - nerr + len(e2e_idx)
+    chk.cov["rule"] = ("one evaluation = one (type term, target) whose three layouts (compile-time sizes, LLVM data layout, emitted "
+                       "descriptor constants) were obtained from the real code and compared with each other (all targets) and with "
+                       "Lay(t, AMD64) computed by TLC (host); plus terms printed by llgo-compiled programs and gcc. non-trivial = "
+                       "distinct composite terms (struct / array / map / named / alias)")
+    chk.cov["terms"] = len(recs)
+    chk.cov["targets"] = ["%s/%s" % t for t in TARGETS]
+    chk.cov["observed_profiles"] = fits
+    chk.cov["c_compatible_terms_vs_gcc"] = len(cc)
+    chk.cov["reference_sizes_self_validation"] = nref
+    chk.cov["end_to_end_terms"] = len(e2e_idx)
+    chk.cov["end_to_end_disagreeing"] = len(bad)
+    chk.cov["harness_errors"] = nerr
+    mid = recs[len(recs) // 2]
+    chk.sample({"term": show(mid["t"]), "spec": dict(zip(PROFILES, mid["L"])),
+                "observed": {a: {k: results[a][1][len(recs) // 2].get(k) for k in "abc"} for _, a in TARGETS}})
+    chk.assumptions += [
+        "the go/types values built by the harness represent the terms (self-validated: go/types' own gc sizes equal the spec "
+        "profile on every func-free term; gcc equals it on every C-compatible term)",
+        "compile-time sizes are obtained as internal/build.Do obtains them: compiler/arch from `go list`, types.SizesFor, then "
+        "Do's `sizes` closure compiled verbatim from internal/build/build.go (end-to-end programs confirm on the host)",
+        "off the host only agreement of llgo's own three computations is judged; the fitted profile is reported",
+        "a disagreeing term built from an already disagreeing component is counted, not reported separately",
+    ]
 
 
 if __name__ == "__main__":
